@@ -23,6 +23,13 @@ func (g *G) coinsFor(label string) sdk.Coins {
 		n = 2 + g.intn(label+"-n", 2)
 	}
 	out := sdk.NewCoins()
+	if g.chance(label+"-many-denoms", 7) {
+		// dozens of denominations in one transfer
+		for i, k := 0, 24+g.intn(label+"-many-n", simnet.ManyDenoms-23); i < k; i++ {
+			out = out.Add(sdk.NewInt64Coin(fmt.Sprintf("v%02d", i), int64(1+g.intn(label+"-many-amt", 1000))))
+		}
+		return out
+	}
 	for i := 0; i < n; i++ {
 		if g.chance(label+"-huge", 12) {
 			// amounts at and beyond the int64 boundary
